@@ -280,6 +280,18 @@ def run_config(out, binp, rng, hi):
                     latest = h['x-version-id']; chain.append(latest)
                 if pi == 0 and j == 1:
                     k += 1; s.call(f"i={k} op=as port={pi}", 'POST', f'/v1/client/add-snapshot/{latest}', [('Content-Type', SNAP_CT), ('X-Client-Id', listed)], b'snap')
+        # the other outcome classes, through the real executable (its `main` wraps the application in middleware of its own):
+        # conflict, gone, not-found, no snapshot / snapshot, bad request
+        s = Sess(out, cfg['ports'][0])
+        if len(chain) >= 2:
+            k += 1; s.call(f"i={k} op=av case=stale", 'POST', f'/v1/client/add-version/{chain[0]}', [('Content-Type', HS_CT), ('X-Client-Id', listed)], b'stale')
+            k += 1; s.call(f"i={k} op=gcv case=found", 'GET', f'/v1/client/get-child-version/{chain[0]}', [('X-Client-Id', listed)])
+        k += 1; s.call(f"i={k} op=gcv case=latest", 'GET', f'/v1/client/get-child-version/{latest}', [('X-Client-Id', listed)])
+        k += 1; s.call(f"i={k} op=gcv case=unknown", 'GET', f'/v1/client/get-child-version/{uuid.UUID(int=rng.getrandbits(128), version=4)}', [('X-Client-Id', listed)])
+        k += 1; s.call(f"i={k} op=gs case=now", 'GET', '/v1/client/snapshot', [('X-Client-Id', listed)])
+        k += 1; s.call(f"i={k} op=http route=av case=badct", 'POST', f'/v1/client/add-version/{latest}', [('Content-Type', 'text/plain'), ('X-Client-Id', listed)], b'x')
+        k += 1; s.call(f"i={k} op=http route=gs case=noid", 'GET', '/v1/client/snapshot', [])
+        k += 1; s.call(f"i={k} op=http route=as case=empty", 'POST', f'/v1/client/add-snapshot/{latest}', [('Content-Type', SNAP_CT), ('X-Client-Id', listed)], b'')
         # crash and restart on the same directory with the same configuration
         proc.send_signal(signal.SIGKILL); proc.wait()
         out.write(f"# i={k + 1} op=reopen kill=9\n")
